@@ -163,13 +163,30 @@ where
     }
 }
 
+/// Decode a variable-length word, rejecting values that do not fit the machine word instead of
+/// shifting bits out of it.
+fn decode_word(d: &mut Decoder) -> Result<usize, de::Error> {
+    usize::try_from(d.big_word()?)
+        .map_err(|_| de::Error::Message("word too large".to_string()))
+}
+
+fn decode_signed_word(d: &mut Decoder) -> Result<isize, de::Error> {
+    isize::try_from(d.big_integer()?)
+        .map_err(|_| de::Error::Message("integer too large".to_string()))
+}
+
+/// Decode a single bit, failing at the end of the buffer instead of indexing past it.
+fn decode_bool(d: &mut Decoder) -> Result<bool, de::Error> {
+    Ok(d.bits8(1)? == 1)
+}
+
 impl<'b, T> Decode<'b> for Program<T>
 where
     T: Binder<'b>,
 {
     fn decode(d: &mut Decoder) -> Result<Self, de::Error> {
         let mut state_log: Vec<String> = vec![];
-        let version = (usize::decode(d)?, usize::decode(d)?, usize::decode(d)?);
+        let version = (decode_word(d)?, decode_word(d)?, decode_word(d)?);
         let term_option = Term::decode_debug(d, &mut state_log);
 
         match term_option {
@@ -270,7 +287,7 @@ where
             6 => Ok(Term::Error),
             7 => Ok(Term::Builtin(DefaultFunction::decode(d)?)),
             8 => {
-                let tag = usize::decode(d)?;
+                let tag = decode_word(d)?;
                 let fields = d.decode_list_with(Term::<T>::decode)?;
 
                 Ok(Term::Constr { tag, fields })
@@ -447,7 +464,7 @@ where
             8 => {
                 state_log.push("(constr ".to_string());
 
-                let tag = usize::decode(d)?;
+                let tag = decode_word(d)?;
 
                 let fields = d.decode_list_with_debug(
                     |d, state_log| Term::<T>::decode_debug(d, state_log),
@@ -639,7 +656,7 @@ impl Decode<'_> for Constant {
             [1] => Ok(Constant::ByteString(Vec::<u8>::decode(d)?)),
             [2] => Ok(Constant::String(String::decode(d)?)),
             [3] => Ok(Constant::Unit),
-            [4] => Ok(Constant::Bool(bool::decode(d)?)),
+            [4] => Ok(Constant::Bool(decode_bool(d)?)),
             [7, 5, rest @ ..] => {
                 let mut rest = VecDeque::from(rest.to_vec());
 
@@ -706,7 +723,7 @@ fn decode_constant_value(typ: Rc<Type>, d: &mut Decoder) -> Result<Constant, de:
         Type::ByteString => Ok(Constant::ByteString(Vec::<u8>::decode(d)?)),
         Type::String => Ok(Constant::String(String::decode(d)?)),
         Type::Unit => Ok(Constant::Unit),
-        Type::Bool => Ok(Constant::Bool(bool::decode(d)?)),
+        Type::Bool => Ok(Constant::Bool(decode_bool(d)?)),
         Type::List(sub_type) => {
             let list: Vec<Constant> =
                 d.decode_list_with(|d| decode_constant_value(sub_type.clone(), d))?;
@@ -806,7 +823,7 @@ impl Encode for Unique {
 
 impl Decode<'_> for Unique {
     fn decode(d: &mut Decoder) -> Result<Self, de::Error> {
-        Ok(isize::decode(d)?.into())
+        Ok(decode_signed_word(d)?.into())
     }
 }
 
@@ -892,7 +909,7 @@ impl Encode for DeBruijn {
 
 impl Decode<'_> for DeBruijn {
     fn decode(d: &mut Decoder) -> Result<Self, de::Error> {
-        Ok(usize::decode(d)?.into())
+        Ok(decode_word(d)?.into())
     }
 }
 
